@@ -18,6 +18,14 @@ are added or tupled and optionally wrapped again: the same object inside vs outs
 filters, under nested filters, inside explode / group-by / per-element vs outside, agg and scan.  The class labels
 agg_shared_* / scan_shared_* are computed from the built DAG (one ApplyAggOp/ApplyScanOp object reached under two
 different context chains), not from the generator's intent.
+Nested contexts: both dialects build an aggregation context INSIDE a scan argument and a scan context INSIDE an aggregation
+argument (and the two same-kind nestings) with a node shared inside the inner context's arguments -- api: a per-row operand
+of a query program may be a nested local aggregation `arr.aggregate(q2)` (StreamAgg) or local scan
+`arr._to_stream()._aggregate_scan(q2)` (StreamAggScan) over a per-row array, q2 a query program over *shared per-row slots*
+(one node object handed to several aggregators / filter conditions / explode arrays); ir: the 'nest' op builds
+StreamAgg / StreamAggScan queries with one per-element node in several arguments and uses the result in per-row position(s)
+of an enclosing ApplyScanOp / ApplyAggOp / AggFilter.  Labels agg_inside_scan_shared / scan_inside_agg_shared (also
+agg_inside_agg_shared / scan_inside_scan_shared) are computed from the built DAG (nest_share_classes).
 
 Oracle: render the root with CSERenderer() and PlainRenderer(); read both texts (vlib.irtools); then
   scope    every Ref of the CSE text resolves (engine binding rules, eval/agg/scan environments); no __cse_N is bound
@@ -26,6 +34,10 @@ Oracle: render the root with CSERenderer() and PlainRenderer(); read both texts 
   aggctx   an inserted let whose value aggregates (scans) is bound under exactly the chain of row-set context nodes
            (AggFilter / AggExplode / AggGroupBy / AggArrayPerElement below the same aggregation root) of each of its uses
            -- a let above a filter read inside it would hand the unfiltered result to the filtered use;
+  flag     the is_scan flag of every inserted AggLet equals the kind of the first per-row position (ApplyAggOp vs ApplyScanOp
+           argument, condition / array / key of a context node with that flag) entered on the way to each of its uses --
+           whatever encloses the AggLet: an aggregation entered inside a scan argument binds with is_scan False, a scan
+           entered inside an aggregation argument with is_scan True (structural, independent of the environments);
   subst    erasing the inserted lets by substitution gives exactly the plain tree;
   eval     both trees evaluate to the same value in a reference interpreter (NaN == NaN, missing propagates, local and
            table aggregations and scans interpreted over explicit row lists: a filter narrows the row list, explode /
@@ -49,14 +61,20 @@ RULE = ('IR DAGs with shared Python node objects: (api) SSA op lists over the ex
         'nodes closed into TableAggregate/TableMapRows/value roots; both with share ops that use ONE aggregation object '
         'under several chains of row-set contexts (inside/outside a filter, two filters, nested filters, explode, group-by, '
         'per-element, agg and scan; api: hl.agg/hl.scan query programs under array.aggregate, Table.aggregate, scan '
-        'annotation). Each DAG is rendered with CSERenderer and '
+        'annotation), and with nested contexts: a local aggregation (StreamAgg) / local scan (StreamAggScan) whose query '
+        'shares one per-element node between several aggregator arguments / filter conditions / explode arrays, used in a '
+        'per-row position of an enclosing scan / aggregation (classes agg_inside_scan_shared, scan_inside_agg_shared and the '
+        'same-kind agg_inside_agg_shared, scan_inside_scan_shared; api: shared per-row slots and nested '
+        'arr.aggregate / arr._to_stream()._aggregate_scan operands of query programs, ir: the nest op). Each DAG is rendered with CSERenderer and '
         'PlainRenderer, both texts are read back, scope-checked with binder identity under the engine binding rules, the '
         'inserted lets that aggregate must sit under the same chain of AggFilter/AggExplode/AggGroupBy/AggArrayPerElement '
-        'nodes as each use, the inserted lets are erased by substitution and compared with the plain tree, and both are '
+        'nodes as each use, the is_scan flag of every inserted AggLet must equal the kind (agg / scan) of the first per-row '
+        'position entered on the way to each of its uses, the inserted lets are erased by substitution and compared with the plain tree, and both are '
         'evaluated by a reference interpreter (aggregations and scans over explicit row lists) under 3 environments. '
         'Non-trivial: the CSE text has >=1 inserted let whose value uses a variable bound by a lambda/let binder, or that '
         'lies in (or binds into) an agg/scan scope, or the DAG shares one aggregation object across different row-set '
-        'contexts (classes agg_shared_* / scan_shared_*); distinct by canonical program.')
+        'contexts (classes agg_shared_* / scan_shared_*) or shares a node between the per-row positions of an aggregation / '
+        'scan nested inside another one (classes *_inside_*_shared); distinct by canonical program.')
 ASSUMPTIONS = [
     'the reference interpreter is total: integer division by zero and out-of-range indexing yield missing, so the strictness '
     'of a lifted let with respect to run-time errors (loop-invariant hoisting out of an empty loop) is outside the property',
@@ -67,6 +85,8 @@ ASSUMPTIONS = [
     'key-ordered association lists',
     'the index variable of AggArrayPerElement is never referenced by generated ir-mode programs (engine and hail.ir disagree '
     'on whether it is bound in the agg scope; that is a binding-table matter, not a CSE matter)',
+    'nested local scans in api mode use the package-private StreamExpression._aggregate_scan (the only Python producer of '
+    'StreamAggScan; used by hail.vds); the local scan result is reduced with hl.sum / StreamFold(+) to a per-row number',
     'the binding structure of each node kind is the engine\'s (Binds.scala / Env.scala), transcribed in vlib/irtools.py',
 ]
 TRUSTED = ['vlib/irtools.py reader + binding table (transcribed from Binds.scala/Env.scala)',
@@ -316,24 +336,48 @@ class ApiBuilder:
         raise _Skip(f'unknown op {k}')
 
     # ---- aggregation queries over the public aggregator API (hl.agg / hl.scan)
-    def query(self, spec, x, pool, depth, A):
+    def query(self, spec, x, pool, depth, A, numeric=False):
         """spec = {'ops': [...], 'ret': [...]}: an SSA program whose entries are *aggregated* expressions (objects).  x is
-        the numeric per-row expression (array element / row field).  Per-row operands are built from x (codes below) or by
-        a nested op-list body over the enclosing pool plus x; aggregated operands are indices into the query's own pool,
+        the numeric per-row expression (array element / row field).  Per-row operands are built from x (codes below), by
+        a nested op-list body over the enclosing pool plus x, as a *shared* per-row entry (['s', j, r]: slot j of this
+        query is built once from r and the same object is handed to every aggregator / filter condition / key that names
+        the slot) or as a *nested* local aggregation or scan over a per-row array (['n', is_scan, r, spec2]:
+        arr.aggregate(q2) -> StreamAgg, arr._to_stream()._aggregate_scan(q2) -> StreamAggScan, q2 a query program of its
+        own over the element, which also sees x); aggregated operands are indices into the query's own pool,
         so one aggregator object can be used inside hl.agg.filter / explode / group_by / array_agg and outside.  The
-        eval part of the query uses aggregated entries only (the known StreamAgg finding needs an outer variable there)."""
+        eval part of the query uses aggregated entries only (the known StreamAgg finding needs an outer variable there).
+        numeric: the result is one number (several outputs are added)."""
         hl = self.hl
         ap = []
+        slots = {}
         agg_num = lambda e: self.is_num(e.dtype)      # noqa: E731
 
         def row(r):      # per-row numeric expression
             if isinstance(r, dict):
                 return self.body(r, pool, depth, self.is_num)(x)
+            if isinstance(r, (list, tuple)):
+                if r[0] == 's':
+                    j = int(r[1]) % 3
+                    if j not in slots:
+                        slots[j] = row(r[2])
+                    return slots[j]
+                if r[0] == 'n':
+                    if depth >= 4:
+                        raise _Skip('nesting depth')
+                    a, inner = arr(r[2]), (hl.scan if r[1] else hl.agg)
+                    q2 = lambda e: self.query(r[3], e, list(pool) + [x], depth + 1, inner, numeric=True)    # noqa: E731
+                    self.st['api_nested_scan' if r[1] else 'api_nested_agg'] = 1
+                    if r[1]:
+                        return hl.sum(a._to_stream()._aggregate_scan(q2).to_array())
+                    return a.aggregate(q2)
+                raise _Skip(f'unknown row operand {r[0]}')
             r = int(r)
             return [x, x * x, x + hl.int32(r), hl.int32(r) - x][r % 4]
 
         def arr(r):      # per-row array; its elements share one per-row node
             e = row(r)
+            if isinstance(r, (list, tuple)):
+                return hl.array([e, e + hl.int32(1), e]) if r[0] == 's' and int(r[1]) % 2 else hl.array([e, e])
             return hl.array([e, e]) if isinstance(r, dict) or int(r) % 2 == 0 else hl.array([e, e + hl.int32(1), e])
 
         def cond(w):
@@ -410,6 +454,13 @@ class ApiBuilder:
                 raise
             self.st['ops'] += 1
             ap.append(e)
+        if numeric:
+            rets = [Q(r, agg_num) for r in qret] or [Q(0, agg_num)]
+            out = rets[0]
+            for e in rets[1:]:
+                if e is not out:
+                    out = out + e
+            return out
         rets = [Q(r) for r in qret] or [Q(0)]
         return rets[0] if len(rets) == 1 else hl.tuple(rets)
 
@@ -600,7 +651,74 @@ class IrBuilder:
                 self.st['excluded_known'] += 1
             return E(ir.ToArray(ir.StreamAggScan(ir.ToStream(a.ir), n, q.ir)), 'a',
                      fe=a.fe | (q.fe - {n}) | (q.fs - {n}))
+        if k == 'nest':
+            return self.nest(op, pool)
         raise _Skip(f'unknown op {k}')
+
+    def nest(self, op, pool):
+        """['nest', inner_scan, outer_scan, a, name, y, m-variant, query-variant, outer-variant, literal]: a local aggregation
+        X = StreamAgg (inner_scan 0) or a local scan X = fold(+) of a StreamAggScan (inner_scan 1) over an array, whose
+        query uses ONE per-element node m (built from the element variable and the pure entry y) in several aggregation
+        (scan) arguments / a filter condition / an explode array of that query, and X used in per-row position(s) -- argument
+        or filter condition -- of an enclosing scan (outer_scan 1) or aggregation (0): an aggregation context entered inside
+        a scan argument, a scan context entered inside an aggregation argument, and the two same-kind nestings.  The
+        result is an ordinary pool entry (it can be shared / wrapped by later ops)."""
+        ir, hl, t64 = self.ir, self.hl, self.t64
+        _, iscan, oscan, ai, ni, yi, mvar, qvar, ovar, lit = op
+        iscan, oscan = bool(iscan), bool(oscan)
+        n, n2 = NAMES[ni % len(NAMES)], NAMES[(ni + 1) % len(NAMES)]
+
+        def P(i, ty, make):
+            c = [e for e in pool if e.ty in ty and e.pure]
+            return c[-1 - (i % len(c))] if c else make()
+
+        def bop(o, p, q):
+            return _join('i', ir.ApplyBinaryPrimOp(o, p.ir, q.ir), p, q)
+
+        def less(p, c):
+            return _join('b', ir.ApplyComparisonOp('<', p.ir, ir.I64(int(c))), p)
+
+        def app(scan, e):
+            App = ir.ApplyScanOp if scan else ir.ApplyAggOp
+            return E(App('Sum', [], [e.ir]), 'i', **(dict(fs=e.fe, scan=True) if scan else dict(fa=e.fe, agg=True)))
+
+        y = P(yi, 'i', lambda: E(ir.I64(2), 'i'))
+        a = P(ai, 'a', lambda: _join('a', ir.MakeArray([y.ir, ir.I64(3), y.ir], hl.tarray(t64)), y))
+        v = E(ir.Ref(n, t64), 'i', fe={n})
+        m = [lambda: bop('*', v, v), lambda: bop('*', v, y), lambda: bop('+', y, v),
+             lambda: bop('+', bop('*', v, y), v)][mvar % 4]()
+        qv = qvar % (6 if iscan else 5)
+        if qv == 0:        # one per-element node in the arguments of two aggregators
+            q = bop('+', app(iscan, m), app(iscan, m))
+        elif qv == 1:      # ... and below another operation in the second argument
+            q = bop('+', app(iscan, m), app(iscan, bop('+', m, E(ir.I64(1), 'i'))))
+        elif qv == 2:      # filter condition and aggregated argument
+            q = self.w_filter(less(m, lit), app(iscan, m), iscan)
+        elif qv == 3:      # exploded array and the argument below the explode
+            w = E(ir.Ref(n2, t64), 'i', fe={n2})
+            q = self.w_explode(_join('a', ir.MakeArray([m.ir, m.ir], hl.tarray(t64)), m), n2, app(iscan, bop('+', m, w)), iscan)
+        elif qv == 4:      # bare argument, filter condition and argument below the filter
+            q = bop('+', app(iscan, m), self.w_filter(less(m, lit), app(iscan, m), iscan))
+        else:              # local scan only: the element variable is bound in the eval scope of the query as well
+            m = bop('*', v, v)
+            q = bop('+', app(True, m), m)
+        if iscan:
+            st = ir.StreamAggScan(ir.ToStream(a.ir), n, q.ir)
+            x = E(ir.StreamFold(st, ir.I64(0), 'x7', 'x8', ir.ApplyBinaryPrimOp('+', ir.Ref('x7', t64), ir.Ref('x8', t64))),
+                  'i', fe=a.fe | (q.fe - {n}) | (q.fs - {n}))
+        else:
+            x = E(ir.StreamAgg(ir.ToStream(a.ir), n, q.ir), 'i', fe=a.fe | q.fe | (q.fa - {n}))
+        ov = ovar % 4
+        if ov == 0:
+            out = app(oscan, x)
+        elif ov == 1:
+            out = app(oscan, bop('+', x, x))
+        elif ov == 2:
+            out = self.w_filter(less(x, lit + 3), app(oscan, x), oscan)
+        else:
+            out = bop('+', app(oscan, x), app(oscan, bop('*', x, x)))
+        self.st['ir_nest'] = 1
+        return out
 
     # ---- aggregation-context wrappers (row-set boundaries) with the free-name bookkeeping of their body
     @staticmethod
@@ -1296,6 +1414,7 @@ class ScopeReport:
         self.lets_agglet = 0     # inserted AggLet (agg)
         self.lets_scanlet = 0
         self.lets_in_agg = 0     # inserted eval Let placed inside an agg/scan scope, or whose value aggregates
+        self.lets_nested = 0     # inserted AggLet placed inside a per-row position of an enclosing aggregation / scan
         self.refs = 0
 
     def fail(self, sig, clause, msg):
@@ -1309,6 +1428,8 @@ CL_LETFV = 'every inserted let value has all its variables bound at the insertio
 CL_SAME = 'in-lining an inserted let at each use resolves every variable to the same binder'
 CL_AGGCTX = ('every inserted let whose value aggregates (scans) is bound under exactly the chain of row-set context nodes '
              '(AggFilter / AggExplode / AggGroupBy / AggArrayPerElement) of each of its uses')
+CL_FLAG = ('the is_scan flag of every inserted AggLet equals the kind (aggregation / scan) of the per-row position through '
+           'which each of its uses is reached')
 CL_SUBST = 'erasing the inserted lets by substitution yields the plain rendering'
 CL_EVAL = 'the CSE rendering and the plain rendering evaluate to the same value'
 CL_RENDER = 'the renderer produces a text for every well-scoped DAG'
@@ -1438,7 +1559,47 @@ def scope_check(root: Node, top: Env) -> ScopeReport:
     return rep
 
 
-_PRIORITY = ['let-value-unbound', 'unbound-ref', 'no-context', 'cse-bound-twice', 'lifted-across-agg-context',
+def flag_check(root: Node, rep: ScopeReport):
+    """An inserted (AggLet name is_scan v body) binds `name` in the scan (is_scan True) or the aggregation environment of
+    `body`; a use sees it only through a per-row position of the same kind: the argument of an ApplyScanOp resp.
+    ApplyAggOp, the condition / array / key / value of a context node with the same flag.  So for every use the FIRST
+    per-row position entered on the way down from the AggLet must be of the AggLet's kind -- whatever contexts enclose
+    the AggLet itself (an aggregation entered inside a scan argument must bind with is_scan False, and vice versa).
+    Purely structural (no environments), so it also speaks when the mis-flagged let has no environment to bind into."""
+    def go(n, first, nest):
+        k = n.kind
+        if k == 'Ref':
+            got = first.get(str(n.head[0]))
+            if got and got[1] is not None and got[1] != got[0]:
+                outer = ('-in-' + nest[-2]) if len(nest) >= 2 else ''
+                rep.fail(f'agglet-flag:let={got[0]}:use={got[1]}{outer}', CL_FLAG,
+                         f'inserted (AggLet {n.head[0]} {got[0] == "scan"} ...) binds in the {got[0]} environment but the name is '
+                         f'used in {"a scan" if got[1] == "scan" else "an aggregation"} argument (per-row positions entered '
+                         f'from the root: {list(nest)})')
+            return
+        name = None
+        if k == 'AggLet' and str(n.head[0]).startswith(CSE_PREFIX):
+            name = str(n.head[0])
+            if nest:
+                rep.lets_nested += 1
+        root_like = irtools.is_new_scope_root(k) or k in ('TableAggregate', 'MatrixAggregate')
+        for i, ch in enumerate(n.children):
+            f2, n2 = first, nest
+            sw = _switches(n, i)
+            if sw:
+                n2 = nest + (sw,)
+                if any(v[1] is None for v in first.values()):
+                    f2 = {nm: (v if v[1] is not None else (v[0], sw)) for nm, v in first.items()}
+            elif root_like:
+                f2, n2 = {}, ()
+            if name and i == 1:
+                f2 = dict(f2)
+                f2[name] = ('scan' if str(n.head[1]) == 'True' else 'agg', None)
+            go(ch, f2, n2)
+    go(root, {}, ())
+
+
+_PRIORITY = ['agglet-flag', 'let-value-unbound', 'unbound-ref', 'no-context', 'cse-bound-twice', 'lifted-across-agg-context',
              'lifted-across-scan-context', 'inline-resolves-differently']
 
 
@@ -1587,6 +1748,46 @@ def agg_share_classes(root):
     return sorted(labels)
 
 
+def nest_share_classes(root):
+    """'agg_inside_scan_shared' / 'scan_inside_agg_shared' (and the same-kind 'agg_inside_agg_shared' /
+    'scan_inside_scan_shared'): the DAG enters an aggregation (scan) per-row position -- an ApplyAggOp / ApplyScanOp argument,
+    the condition / array / key / value of a context node -- while already inside a per-row position of a scan
+    (aggregation), and some non-leaf node *object* is reached through two different per-row positions of that inner
+    aggregation (scan), i.e. it is shared inside the inner context's arguments and can only be bound by an AggLet of the
+    inner kind.  Computed from the node objects (BaseIR.uses_agg_context / uses_scan_context), not from the generator's
+    intent."""
+    from hail.ir.base_ir import BaseIR
+    ir = _env()[1]
+    seen, entries = set(), {}
+
+    def go(n, stack, rootid, entry):
+        key = (id(n), stack, rootid, entry)
+        if key in seen:
+            return
+        seen.add(key)
+        kids = [(i, c) for i, c in enumerate(n.children) if isinstance(c, BaseIR)]
+        if len(stack) >= 2 and kids:
+            entries.setdefault((id(n), stack[-2:], rootid), set()).add(entry)
+        for i, c in kids:
+            if isinstance(n, ir.IR) and n.uses_agg_context(i):
+                go(c, stack + ('agg',), rootid, (id(n), i))
+            elif isinstance(n, ir.IR) and n.uses_scan_context(i):
+                go(c, stack + ('scan',), rootid, (id(n), i))
+            elif isinstance(n, (ir.StreamAgg, ir.StreamAggScan)) and i == 1:
+                go(c, stack, id(n), entry)
+            elif not isinstance(n, ir.IR) or isinstance(n, (ir.TableAggregate, ir.MatrixAggregate)):
+                go(c, (), id(n), None)
+            else:
+                go(c, stack, rootid, entry)
+    go(root, (), None, None)
+    labels = set()
+    for (_, (outer, inner), _), es in entries.items():
+        labels.add(f'{inner}_inside_{outer}')
+        if len(es) >= 2:
+            labels.add(f'{inner}_inside_{outer}_shared')
+    return sorted(labels)
+
+
 def _tag_site_reused(fails):
     out = []
     for sig, cl, msg in fails:
@@ -1662,6 +1863,12 @@ def _check_case(case, guard=None, guard2=None):
             classes.append(key)
     shared = agg_share_classes(root)
     classes.extend(shared)
+    nested = nest_share_classes(root)
+    classes.extend(nested)
+    nested = [c for c in nested if c.endswith('_shared')]
+    for key in ('api_nested_agg', 'api_nested_scan', 'ir_nest'):
+        if st.get(key):
+            classes.append(key)
     plain = PlainRenderer()(root)
     try:
         cse = CSERenderer()(root)
@@ -1687,6 +1894,7 @@ def _check_case(case, guard=None, guard2=None):
         raise AssertionError(f'generator produced an ill-scoped DAG: {plain[:800]}')
     classes.append('compared')
     rep = scope_check(cn, top)
+    flag_check(cn, rep)
     fails.extend(_primary(rep.fails))
     er = erase(cn, {})
     if er.key() != pn.key() and not fails:      # an unbound / misplaced let is already reported; this would be its echo
@@ -1738,7 +1946,10 @@ def _check_case(case, guard=None, guard2=None):
     for attr in ('lets_lambda', 'lets_userlet', 'lets_agglet', 'lets_scanlet', 'lets_in_agg'):
         if getattr(rep, attr):
             classes.append(attr)
-    nontrivial = bool(rep.lets_lambda or rep.lets_userlet or rep.lets_agglet or rep.lets_scanlet or rep.lets_in_agg or shared)
+    if rep.lets_nested:
+        classes.append('lets_agglet_in_nested_context')
+    nontrivial = bool(rep.lets_lambda or rep.lets_userlet or rep.lets_agglet or rep.lets_scanlet or rep.lets_in_agg or shared
+                      or nested)
     if fails:
         if reused:
             fails = _tag_site_reused(fails)
@@ -1787,6 +1998,15 @@ def _strategies():
                 {'ops': api_ops(depth + 1, 2, 1), 'ret': st.sampled_from([0, 0, 1])})))
         else:
             rowx = code
+        # shared per-row slots (one node object for every operand naming the slot) and nested local aggregations / scans
+        # over a per-row array as per-row operands: an aggregation inside a scan argument, a scan inside an aggregation
+        # argument (and the same-kind nestings), the inner query mostly over shared slots
+        slot = st.tuples(st.just('s'), st.sampled_from([0, 0, 1, 2]), rowx)
+        if depth < 3:
+            nest = st.tuples(st.just('n'), st.booleans(), st.one_of(code, slot), st.deferred(lambda: nested_query(depth + 1)))
+            rowx = st.one_of(rowx, rowx, rowx, rowx, rowx, slot, slot, nest)
+        else:
+            rowx = st.one_of(rowx, rowx, slot)
         lit = st.integers(-1, 4)
         flt = st.tuples(st.just('f'), rowx, lit, st.booleans())
         wrapper = st.one_of(flt, flt, flt, st.tuples(st.just('e'), rowx), st.tuples(st.just('g'), rowx),
@@ -1808,6 +2028,24 @@ def _strategies():
             'ops': st.lists(st.one_of(base, base, ctxop, ctxop, comb, comb, qshare, qshare), min_size=1, max_size=7),
             'ret': st.lists(st.sampled_from([0, 0, 1, 2, 3]), min_size=1, max_size=3),
             'tail': st.one_of(st.none(), qshare, qshare)})
+
+    def nested_query(depth):
+        """the query of a nested local aggregation / scan: few aggregators, operands mostly the shared slots"""
+        code = st.integers(0, 7)
+        slot = st.tuples(st.just('s'), st.sampled_from([0, 0, 0, 1]), code)
+        rowx = st.one_of(slot, slot, slot, code)
+        lit = st.integers(-1, 4)
+        flt = st.tuples(st.just('f'), rowx, lit, st.booleans())
+        wrapper = st.one_of(flt, flt, st.tuples(st.just('e'), rowx), st.tuples(st.just('a'), rowx))
+        base = st.one_of(st.tuples(st.just('qsum'), rowx), st.tuples(st.just('qsum'), rowx), st.tuples(st.just('qcount')))
+        ctxop = st.one_of(st.tuples(st.just('qfilter'), idx, rowx, lit, st.booleans()), st.tuples(st.just('qexplode'), idx, rowx))
+        comb = st.tuples(st.just('qbin'), st.sampled_from(['+', '*']), idx, idx)
+        qshare = st.tuples(st.just('qshare'), idx, st.tuples(st.lists(wrapper, min_size=1, max_size=1), st.just([])).map(list),
+                           st.just([]), st.just(0))
+        return st.fixed_dictionaries({
+            'ops': st.lists(st.one_of(base, base, base, ctxop, comb, qshare), min_size=2, max_size=4),
+            'ret': st.lists(st.sampled_from([0, 1, 2]), min_size=2, max_size=3, unique=True),
+            'tail': st.none()})
 
     def api_ops(depth, max_ops, min_ops=1):
         body = st.deferred(lambda: st.fixed_dictionaries({'ops': api_ops(depth + 1, 6, 2), 'ret': st.sampled_from([0, 0, 0, 1, 2])}))
@@ -1904,7 +2142,13 @@ def _strategies():
     chains = st.tuples(st.lists(wrapper, min_size=1, max_size=2), chain, st.one_of(st.none(), chain)).map(
         lambda t: [c for c in t if c is not None])
     share = st.tuples(st.just('ashare'), idx, chains, st.lists(wrapper, min_size=0, max_size=1), st.sampled_from([0, 0, 1]), sc)
-    ir_op = st.one_of(glue, glue, glue, binders, binders, aggs, aggs, share)
+    # a local aggregation / scan with a node shared inside its arguments, used in a per-row position of an enclosing scan /
+    # aggregation (IrBuilder.nest): mostly the two mixed nestings
+    kinds2 = st.sampled_from([(0, 1), (0, 1), (0, 1), (1, 0), (1, 0), (1, 0), (0, 0), (1, 1)])
+    nest = kinds2.flatmap(lambda io: st.tuples(st.just('nest'), st.just(io[0]), st.just(io[1]), idx, idx, idx, st.integers(0, 3),
+                                               st.integers(0, 5), st.integers(0, 3), st.integers(0, 4)))
+    ir_op = st.one_of(glue, glue, glue, glue, glue, glue, binders, binders, binders, binders, aggs, aggs, aggs, aggs, share,
+                      share, nest)
 
     def ir_case(max_ops):
         return st.fixed_dictionaries({
@@ -1912,7 +2156,7 @@ def _strategies():
             'ops': st.lists(ir_op, min_size=3, max_size=max_ops),
             'roots': st.lists(st.integers(0, 5), min_size=1, max_size=3),
             'target': st.sampled_from(['aggregate', 'aggregate', 'maprows', 'value']),
-            'tail': st.one_of(st.none(), share),
+            'tail': st.one_of(st.none(), st.none(), st.none(), share, share, share, nest),
         })
 
     return (lambda m: st.one_of(api_case(m), api_case(m), api_case(m), table_case(m))), ir_case
@@ -1981,6 +2225,24 @@ SEED_CASES = [
      'tail': ['ashare', 0, [[['f', 0, 2], ['p', 0, 1]], [['e', 0, 0]], []], [['f', 0, 3]], 0, 0]},
     {'mode': 'ir', 'roots': [0], 'target': 'maprows', 'ops': [['row'], ['acount', 1], ['asum', 0, 1], ['add', 0, 1]],
      'tail': ['ashare', 0, [[['f', 0, 2]], [['g', 0], ['l', 0, 1]], []], [], 1, 1]},
+    # nested contexts with a node shared inside the inner context's arguments (public API):
+    # t.annotate(z = hl.scan.sum(hl.array([i, i]).aggregate(lambda e: hl.agg.sum(e*e) + hl.agg.filter(e*e > 1, hl.agg.sum(e*e)))))
+    {'mode': 'api', 'free': [], 'ops': [], 'table': {'n': 3, 'scan': True, 'q': {
+        'ops': [['qsum', ['n', False, 0, {'ops': [['qsum', ['s', 0, 1]], ['qsum', ['s', 0, 1]],
+                                                  ['qfilter', 0, ['s', 0, 1], 1, True], ['qbin', '+', 0, 2]],
+                                          'ret': [0, 1]}]]], 'ret': [0]}}},
+    # t.aggregate(hl.agg.sum(hl.sum(arr._to_stream()._aggregate_scan(lambda e: hl.scan.sum(e*e) + hl.scan.sum(e*e)).to_array())))
+    {'mode': 'api', 'free': [], 'ops': [], 'table': {'n': 3, 'scan': False, 'q': {
+        'ops': [['qsum', ['n', True, ['s', 1, 0], {'ops': [['qsum', ['s', 0, 1]], ['qsum', ['s', 0, 1]], ['qbin', '+', 0, 1]],
+                                                   'ret': [0]}]]], 'ret': [0]}}},
+    # the same through hail.ir constructors: StreamAgg inside an ApplyScanOp argument / StreamAggScan inside an ApplyAggOp
+    # argument, one per-element node in two arguments (and a filter condition) of the inner query
+    {'mode': 'ir', 'roots': [0], 'target': 'maprows', 'ops': [['row'], ['arr', 0, 1]],
+     'tail': ['nest', 0, 1, 0, 0, 0, 1, 0, 0, 2]},
+    {'mode': 'ir', 'roots': [0], 'target': 'aggregate', 'ops': [['row'], ['arr', 0, 1]],
+     'tail': ['nest', 1, 0, 0, 1, 0, 0, 4, 2, 1]},
+    {'mode': 'ir', 'roots': [0, 1], 'target': 'maprows', 'ops': [['row'], ['r', 1], ['add', 0, 1], ['arr', 0, 1],
+                                                               ['nest', 0, 1, 0, 0, 0, 3, 3, 3, 2], ['nest', 1, 1, 0, 2, 1, 2, 5, 1, 0]]},
     # site-reused through the aggregation capability (no new block involved): y = s + s is a let-insertion site as the
     # aggregation of a filter and occurs at the same depth outside it:
     # s = hl.agg.sum(t.idx); y = s + s; t.aggregate(hl.tuple([hl.agg.filter(t.idx > 1, y), y * s, y + s]))
@@ -2017,7 +2279,12 @@ def run_shard(spec, seed, tier):
     search(res, PROPERTY, strat, lambda c: check_case(_jsonable(c)), spec['n'], seed, shrink=True, to_json=_jsonable)
     res.skipped_ops = STATS['skipped_ops']
     res.notes.update({'ops_applied': STATS['ops'], 'ops_rejected_by_frontend': STATS['rejected_by_frontend'],
-                      'steps_excluded_known': STATS['excluded_known']})
+                      'steps_excluded_known': STATS['excluded_known'],
+                      'nested_contexts': 'agg-inside-scan / scan-inside-agg (and same-kind) nestings with a node shared inside the '
+                                         'inner context\'s arguments are generated in both modes (api: slots + nested '
+                                         'arr.aggregate / _aggregate_scan row operands; ir: nest op); judged by clause flag '
+                                         '(AggLet is_scan vs kind of the per-row position of each use) besides scope / subst / '
+                                         'eval; class labels *_inside_*_shared, lets_agglet_in_nested_context'})
     return res
 
 
